@@ -504,7 +504,8 @@ func NamesDiffer(dir string, overlay map[string][]byte, base *Baseline) bool {
 				}
 				cp := paramNames(x)
 				if len(cp) != len(bf.Params) {
-					continue
+					differ = true // another signature (parameters bundled or split)
+					return
 				}
 				for i := range cp {
 					if cp[i] != bf.Params[i] {
@@ -524,7 +525,8 @@ func NamesDiffer(dir string, overlay map[string][]byte, base *Baseline) bool {
 					}
 					bfl, ok := base.Fields[pkgPath+"."+ts.Name.Name]
 					if !ok {
-						continue
+						differ = true // a struct type the baseline does not know
+						return
 					}
 					names := map[string]bool{}
 					for _, b := range bfl {
